@@ -85,6 +85,28 @@ static void setup_stream(const u8 *stream, unsigned nbits, unsigned start)
 	bs_bits = nbits; bs_pos = start; rp = start;
 }
 
+/* ---- optional stub for read_length_value (LENSTUB): an arbitrary pre-drawn value per call, no bits consumed;
+ * the bit position of every call is logged so that the ORDER of length values relative to the fixed-width
+ * fields stays observable.  The reference draws from the same sequence.  Justified by harness_len, which checks
+ * the real read_length_value against the format from an arbitrary bit position. */
+#ifdef LENSTUB
+#define LENSEQ 64
+static u8 lenseq[LENSEQ];
+static unsigned lencalls, lenpos[LENSEQ];
+static int read_length_value(LHANewDecoder *decoder)
+{
+	(void) decoder;
+	CHECK(lencalls < LENSEQ, "harness: number of length values");
+	if (lencalls >= LENSEQ) return -1;
+	lenpos[lencalls] = bs_pos;
+	return lenseq[lencalls++];
+}
+static unsigned rlencalls;
+#define REF_LENGTH() (lenseq[rlencalls++])
+#else
+#define REF_LENGTH() ref_length()
+#endif
+
 /* ================= read_length_value ================= */
 #ifdef H_LEN
 void harness_len(void)
@@ -115,12 +137,21 @@ void harness_temp(void)
 {
 	INPUT_ARRAY(u8, stream, BS_N);
 	INPUT(u32, nbits); INPUT(u32, start); INPUT(u32, idx);
+#ifdef LENSTUB
+	INPUT_ARRAY(u8, lens_in, 32);
+#endif
 	u8 L[31 + 4];
 	unsigned n, i, z = 0, z0 = 0, single = 0;
 	int r;
 	ASSUME(nbits <= 8 * BS_N && start <= 8 && start <= nbits);
 	setup_stream(stream, nbits, start);
 	for (i = 0; i < sizeof(L); ++i) L[i] = 0xee;
+#ifdef LENSTUB
+	for (i = 0; i < 32; ++i) lenseq[i] = lens_in[i];
+#endif
+#ifdef NMAXT
+	ASSUME(nbits < start + 5 || bs_ref(start, 5) <= NMAXT);    /* this harness: tables of at most NMAXT entries */
+#endif
 
 	r = read_temp_table(&dec);
 
@@ -130,7 +161,7 @@ void harness_temp(void)
 	} else {
 		i = 0;
 		while (i < n) {
-			L[i++] = (u8) ref_length();
+			L[i++] = (u8) REF_LENGTH();
 			if (i == 3) {
 				z = z0 = rbits(2);
 				while (z > 0) { L[i++] = 0; --z; }
@@ -151,9 +182,19 @@ void harness_temp(void)
 		      "C01 H01.tables: temp tree built into the temp tree member with its true length");
 		CHECK(cap_n == n, "C01 H01.tables: temp table: number of codes");
 		if (idx < n) CHECK(cap_lens[idx] == L[idx], "C01 H01.tables: temp table: code length of every symbol");
+#ifdef LENSTUB
+		CHECK(lencalls == rlencalls, "C01 H01.tables: temp table: one length value per transmitted entry");
+		if (idx < lencalls) CHECK(lenpos[idx] == start + 5 + (idx >= 3 ? 2 : 0),
+		                          "C01 H01.tables: temp table: the 2-bit skip field sits between the third and the fourth length value");
+#endif
+#ifdef NMAXT
+		if (n == NMAXT && L[0] >= 9 && z0 == 0 && L[3] == 7) WITNESS("temp: real extended lengths around the skip field");
+#else
 		if (n >= 8 && L[3] == 0 && L[4] == 0 && L[5] == 0 && L[6] != 0) WITNESS("temp: skip field 3");
-		if (n == 4 && z0 == 3) WITNESS("temp: skip field reaches past the table end");
 		if (n >= 6 && L[5] >= 9) WITNESS("temp: extended length after the skip field");
+		if (n == 31) WITNESS("temp: largest table");
+#endif
+		if (n == 4 && z0 == 3) WITNESS("temp: skip field reaches past the table end");
 	}
 	WITNESS("end");
 }
@@ -233,20 +274,29 @@ void harness_off(void)
 {
 	INPUT_ARRAY(u8, stream, BS_N);
 	INPUT(u32, nbits); INPUT(u32, start); INPUT(u32, idx);
+#ifdef LENSTUB
+	INPUT_ARRAY(u8, lens_in, LENSEQ);
+#endif
 	u8 L[MAX_OFFSET_CODES + 1];
 	unsigned n, i, single = 0;
 	int r;
 	ASSUME(nbits <= 8 * BS_N && start <= 8 && start <= nbits);
 	setup_stream(stream, nbits, start);
 	for (i = 0; i < sizeof(L); ++i) L[i] = 0xee;
+#ifdef LENSTUB
+	for (i = 0; i < LENSEQ; ++i) lenseq[i] = lens_in[i];
+#endif
 
+#ifdef NMAXO
+	ASSUME(nbits < start + OB || bs_ref(start, OB) <= NMAXO);  /* this harness: tables of at most NMAXO entries */
+#endif
 	r = read_offset_table(&dec);
 
 	n = rbits(OB);
 	if (n == 0) {
 		single = rbits(OB);
 	} else {
-		for (i = 0; i < n; ++i) L[i] = (u8) ref_length();
+		for (i = 0; i < n; ++i) L[i] = (u8) REF_LENGTH();
 	}
 	if (!ref_ok) {
 		CHECK(r == 0 && cap_calls == 0, "C01 H01.tables: offset table: truncated input fails without building a tree");
@@ -262,8 +312,12 @@ void harness_off(void)
 		      "C01 H01.tables: offset tree built into the offset tree member with its true length");
 		CHECK(cap_n == n, "C01 H01.tables: offset table: number of codes");
 		if (idx < n) CHECK(cap_lens[idx] == L[idx], "C01 H01.tables: offset table: code length of every symbol");
+#ifdef NMAXO
+		if (n == NMAXO && L[1] >= 9) WITNESS("offset: real extended length");
+#else
 		if (n == MAX_OFFSET_CODES) WITNESS("offset: full table");
 		if (n >= 2 && L[1] >= 8) WITNESS("offset: extended length");
+#endif
 	}
 	WITNESS("end");
 }
